@@ -212,6 +212,19 @@ func runC15(c *Ctx) {
 		R.Ob(c.siteKey(st, "localName validated"), c.P.InstrPos(st), ff.At(st)["validateLine("+d+") == nil"], "Client.localName set from "+d+" without validateLine")
 	}
 
+	// the encoders are sanitisers of this rule: their tables (no raw CR/LF, no bypass of the loop) must hold
+	_, rawSets := ruleEncRawSet(c)
+	R.Rule("R-encoders-keep-one-line", "E5 table", "no encoder passes CR or LF through", 3)
+	for en, sets := range rawSets {
+		bad := ""
+		for _, iv := range sets {
+			if iv[0] <= '\n' && '\n' <= iv[1] || iv[0] <= '\r' && '\r' <= iv[1] {
+				bad = fmt.Sprintf("%s passes [%#x..%#x] through unchanged", en, iv[0], iv[1])
+			}
+		}
+		R.Ob(en+"/CR and LF are escaped", "-", bad == "", bad)
+	}
+
 	R.Rule("R-validate-first", "E2+E3", "validateLine rejects CR and LF; in every method that validates an argument the failure edge reaches neither hello() nor any command nor a dial", 6)
 	if f := c.A.Func("validateLine"); f != nil {
 		ok := false
